@@ -25,6 +25,8 @@ def unparse(node: Optional[ast.AST]) -> str:
 
 
 class FuncInfo:
+    origin: Optional['FuncInfo'] = None  # set on analysis views produced by inline.Inliner
+
     def __init__(self, node, module: 'Module', cls: Optional['ClassInfo'], parent: Optional['FuncInfo']):
         self.node: Union[ast.FunctionDef, ast.AsyncFunctionDef, ast.Lambda] = node
         self.module = module
@@ -475,7 +477,7 @@ class Program:
             raise AnalysisError(f'anchor class {qual} not found')
         return m.classes[name]
 
-    def func(self, qual: str) -> FuncInfo:
+    def func(self, qual: str, raw: bool = False) -> FuncInfo:
         """'processes.Process.kill', 'futures.create_task.run_task', 'processes.Process._create_interrupt_action.do_kill'"""
         for short in sorted(self.modules, key=len, reverse=True):
             if qual.startswith(short + '.'):
@@ -499,9 +501,17 @@ class Program:
                         break
                     cur = cur.nested[part]
                 if cur is not None:
-                    return cur
+                    return self.view(cur) if not raw else cur
                 break
         raise AnalysisError(f'anchor function {qual} not found')
+
+    inliner = None  # set by report.Ctx once call resolution is available
+
+    def view(self, f: FuncInfo) -> FuncInfo:
+        """Analysis view of ``f`` with non-anchor private helpers inlined (see inline.py)."""
+        if self.inliner is None or f is None:
+            return f
+        return self.inliner.view(f)
 
     def try_func(self, qual: str) -> Optional[FuncInfo]:
         try:
